@@ -215,6 +215,37 @@ def builds(table, seed, tier, prefix='b'):
             n += 1
 
 
+def rebuilds_same_size(seed, prefix='q'):
+    """Received-looking prior states (size = header + n; the length field says n, n - 1 or 0; DLC arbitrary) followed
+    by a build of exactly n bytes and then one of another length: shortcuts for "same size as before" (round6a-4, round8c-1)."""
+    rng = random.Random(seed + 6)
+    k = 0
+    for cls in ('can', 'canfd', 'lin', 'eth', 'tecmpLin'):
+        for n in (1, 8, 64):
+            for declared in (n, n - 1, 0):
+                bg = [rng.randrange(256) for _ in range(HDR_SIZE[cls] + n)]
+                if cls in ('can', 'canfd'):
+                    bg[0] &= 0xFC
+                    bg[1] = 0
+                    bg[12] = bg[13] = 0
+                    bg[15] = declared
+                    bg[14] = rng.choice([0, 15, 3])
+                elif cls == 'lin':
+                    bg[1] = 0
+                    bg[7] = declared
+                elif cls == 'tecmpLin':
+                    bg[1] = declared
+                else:
+                    bg[1] &= 0xC4
+                    bg[4], bg[5] = declared >> 8, declared & 255
+                ops = [{'op': 'load', 'cls': cls, 'raw': fix_background(cls, bg)},
+                       {'op': 'setData', 'data': [rng.randrange(256) for _ in range(n)]},
+                       {'op': 'setData', 'data': [rng.randrange(256) for _ in range(n)]},
+                       {'op': 'setData', 'data': [rng.randrange(256) for _ in range(max(0, n - 1))]}]
+                yield {'id': '%s%d' % (prefix, k), 'comp': 'obj', 'ops': ops}
+                k += 1
+
+
 def rawhdrs(seed, n, prefix='h'):
     """Packets whose rendered raw CMP / message headers are compared with the layout."""
     import wire
